@@ -236,6 +236,15 @@ pub fn gen_source(r: &mut StdRng, o: &GenOpts, dir: &str, deps: &[String], is_de
                     format!("nodir/t{idx}_{tmpn}.tmp")
                 } else if bad {
                     format!("t{idx}_{tmpn}.x.txtpp")
+                } else if t < 12 && tmpn == 1 && o.self_out.is_some() {
+                    // names a tool would pick for a staging copy of this source's own output:
+                    // `<output stem>.tmp` (Path::with_extension) or `<output>.tmp`
+                    let own = o.self_out.clone().unwrap();
+                    if t % 2 == 0 {
+                        std::path::Path::new(&own).with_extension("tmp").to_string_lossy().to_string()
+                    } else {
+                        format!("{own}.tmp")
+                    }
                 } else if t < 75 {
                     format!("t{idx}_{tmpn}.tmp")
                 } else if t < 88 && !dir.is_empty() {
